@@ -69,8 +69,8 @@ def _pick(draw, seq):
 def _delay(draw, n, exact=False):
     """Delay q in samples (tt = q*dt/2): zero, whole (odd -> tt an odd multiple of dt/2), fractional."""
     top = 2 * n - 1
-    kinds = ["zero", "int", "int", "dyfrac"] if exact else ["zero", "int", "int", "frac", "frac", "frac", "dyfrac", "edge",
-                                                              "near"]
+    kinds = ["zero", "int", "int", "dyfrac"] if exact else (
+        ["zero"] * 2 + ["int"] * 4 + ["frac"] * 6 + ["dyfrac"] * 2 + ["edge", "near"])
     kind = draw(st.sampled_from(kinds))
     if kind == "zero":
         return 0.0
